@@ -687,7 +687,7 @@ def gen_propf_arith(rng):
     return " ; ".join(["|".join(doms)] + ps)
 
 def gen_propf(tier, rng):
-    n = 6000 if tier == "quick" else 200000
+    n = 6000 if tier == "quick" else 60000
     out = [gen_propf_arith(rng) for _ in range(n // 4)]
     for _ in range(n):
         nv = rng.choice([1, 2, 2, 3, 3])
@@ -698,7 +698,7 @@ def gen_propf(tier, rng):
         out.append(" ; ".join(["|".join(doms)] + ps))
     return out
 def gen_searchf(tier, rng):
-    n = 600 if tier == "quick" else 40000
+    n = 600 if tier == "quick" else 6000
     out = []
     for _ in range(n):
         nv = rng.choice([1, 2, 2, 3])
